@@ -12,6 +12,7 @@ import builtins
 import hashlib
 import importlib
 import inspect
+import re
 import itertools
 import types
 
@@ -2122,6 +2123,8 @@ class Engine(object):
             return PBound(obj, name)
         if isinstance(obj, Sym):
             raise Unsupported('attribute %s of %r' % (name, obj))
+        if isinstance(obj, re.Pattern) and name in ('sub', 'subn', 'match', 'search', 'fullmatch', 'findall', 'split'):
+            return PBound(obj, name)
         if isinstance(obj, types.ModuleType) or isinstance(obj, type):
             try:
                 return getattr(obj, name)
@@ -2406,6 +2409,15 @@ class Engine(object):
                     self._inline_depth = depth
                     self.module = saved
             raise Unsupported('method %s without contract' % q)
+        if isinstance(recv, re.Pattern):
+            if not any(is_sym(a) or isinstance(a, (PList, PObj, PFunc)) for a in args):
+                return getattr(recv, name)(*args, **kwargs)
+            if name == 'sub':
+                # over-approximation: any string may come out (a proof that goes through holds for the real substitution)
+                key = 'model:re.Pattern.sub (over-approximated: any string)'
+                self.trusted_used[key] = self.trusted_used.get(key, 0) + 1
+                return SStr(z3.FreshConst(z3.StringSort(), 'resub'))
+            raise Unsupported('re.Pattern.%s on symbolic text' % name)
         if isinstance(recv, str) and name == 'join':
             return self.str_join(recv, args[0], node)
         if isinstance(recv, (str, SStr)) and name in PURE_STR_METHODS:
